@@ -6,6 +6,7 @@ package interp
 // applications stay consistent.
 
 import (
+	"math/big"
 	"crypto/aes"
 	"crypto/cipher"
 	"crypto/hmac"
@@ -455,5 +456,76 @@ func initCryptoModels() {
 		fr.i.collisionFree = true
 		fr.i.res.Stubs["idealisation: hash functions collision-free (distinct inputs give distinct digests)"] = true
 		return nil
+	}
+}
+
+// RSA leaf functions of the repository (crypto/rsa.go) on symbolic data: an uninterpreted pair
+// rsa_enc / rsa_dec over 2048-bit values with dec(enc(x)) = x and enc(dec(c)) = c (one key per
+// harness). Concrete data is interpreted normally (big.Int.Exp runs natively).
+func init() {
+	symbolicBytes := func(v value) bool {
+		sl, ok := v.([]value)
+		if !ok {
+			return false
+		}
+		for _, e := range sl {
+			if _, ok := e.(sv); ok {
+				return true
+			}
+		}
+		return false
+	}
+	pad256 := func(i *interpreter, data []value) *smt.Term {
+		t := i.bytesTerm(data)
+		if t.W < 2048 {
+			t = i.ctx.ZExt(t, 2048)
+		}
+		return t
+	}
+	externals["github.com/gotd/td/crypto.rsaEncrypt"] = func(fr *frame, args []value) value {
+		i := fr.i
+		if !symbolicBytes(args[0]) {
+			return callSSARaw(i, fr, "github.com/gotd/td/crypto.rsaEncrypt", args)
+		}
+		i.res.Stubs["crypto:rsa (uninterpreted pair with dec(enc(x))=x; real on concrete input)"] = true
+		c := i.ctx
+		x := pad256(i, args[0].([]value))
+		app := c.App("rsa_enc", 2048, x)
+		i.addPC(c.Eq(c.App("rsa_dec", 2048, app), x))
+		return i.termBytes(app, 256)
+	}
+	externals["github.com/gotd/td/crypto.rsaDecrypt"] = func(fr *frame, args []value) value {
+		i := fr.i
+		if !symbolicBytes(args[0]) {
+			return callSSARaw(i, fr, "github.com/gotd/td/crypto.rsaDecrypt", args)
+		}
+		i.res.Stubs["crypto:rsa (uninterpreted pair with dec(enc(x))=x; real on concrete input)"] = true
+		c := i.ctx
+		x := pad256(i, args[0].([]value))
+		app := c.App("rsa_dec", 2048, x)
+		i.addPC(c.Eq(c.App("rsa_enc", 2048, app), x))
+		to := args[2].([]value)
+		out := i.termBytes(app, 256)
+		if len(to) < 256 {
+			// FillBytes reports false when the value does not fit; with a 2048-bit value in a
+			// shorter buffer the top bytes would have to be zero: decided by the solver
+			top := i.bytesTerm(out[:256-len(to)])
+			var zero *smt.Term
+			if top.W <= 64 {
+				zero = c.BV(0, top.W)
+			} else {
+				zero = c.BigBV(new(big.Int), top.W)
+			}
+			if !i.branch(c.Eq(top, zero)) {
+				return false
+			}
+			copy(to, out[256-len(to):])
+			return true
+		}
+		for k := range to {
+			to[k] = uint8(0)
+		}
+		copy(to[len(to)-256:], out)
+		return true
 	}
 }
